@@ -274,3 +274,111 @@ Proof.
   intros H. assert (E : [[97%N]] = [[98%N]]) by (eapply (H 2%Z); simpl; auto).
   discriminate.
 Qed.
+
+(* ------------------------------------------------------------------ ast/imports.rego, ast/ast.rego *)
+
+(* a keyed rule whose value is chosen as a function of the key (at most one value per key) cannot conflict,
+   however many source constructs share the key *)
+Lemma keyed_by_function_conflict_free {K V} (f : K -> list V) (keys : list K) :
+  (forall k, length (f k) <= 1) ->
+  keyed_conflict_free (flat_map (fun k => map (pair k) (f k)) keys).
+Proof.
+  intros Hf k v w Hv Hw.
+  apply in_flat_map in Hv. destruct Hv as (k1 & _ & Hv). apply in_map_iff in Hv.
+  destruct Hv as (v' & E1 & Hv). injection E1 as Ek1 Ev1. subst k1 v'.
+  apply in_flat_map in Hw. destruct Hw as (k2 & _ & Hw). apply in_map_iff in Hw.
+  destruct Hw as (w' & E2 & Hw). injection E2 as Ek2 Ew2. subst k2 w'.
+  specialize (Hf k). destruct (f k) as [|x [|y l]]; simpl in *.
+  - destruct Hv.
+  - destruct Hv as [<-|[]]. destruct Hw as [<-|[]]. reflexivity.
+  - lia.
+Qed.
+
+(* the two bodies of _imported_identifier are exclusive unless the alias is the VALUE false
+   (the parser only ever produces a variable name there) *)
+Theorem imported_identifier_le1 i :
+  imp_alias i <> Some (JBool false) -> length (imported_identifier i) <= 1.
+Proof.
+  intros H. unfold imported_identifier, outputs, ii_b1, ii_b2; simpl. rewrite app_nil_r.
+  destruct (imp_alias i) as [a|] eqn:E; simpl.
+  - destruct a as [|[|]| | | | |]; simpl; auto. exfalso. apply H. reflexivity.
+  - destruct (last_opt (imp_path i)); simpl; auto.
+Qed.
+
+Theorem imported_identifier_conflict_free i :
+  imp_alias i <> Some (JBool false) -> conflict_free (imported_identifier i).
+Proof. intros H. apply le1_conflict_free, imported_identifier_le1, H. Qed.
+
+Theorem imported_identifier_false_alias_refuted :
+  exists i, ~ conflict_free (imported_identifier i).
+Proof.
+  exists {| imp_path := [s_data; [120%N]]; imp_alias := Some (JBool false) |}.
+  intros H. specialize (H (JBool false) (JStr [120%N])).
+  assert (E : JBool false = JStr [120%N]) by (apply H; vm_compute; auto).
+  discriminate.
+Qed.
+
+Lemma first_path_le1 id imports : length (first_path id imports) <= 1.
+Proof. unfold first_path. destruct (filter (has_identifier id) imports); simpl; auto. Qed.
+
+(* resolved_imports as written: however many imports share an identifier, the key gets the first one's path *)
+Theorem resolved_imports_conflict_free imports : keyed_conflict_free (resolved_imports imports).
+Proof.
+  unfold resolved_imports.
+  apply (keyed_by_function_conflict_free (fun id => first_path id imports)).
+  intros id. apply first_path_le1.
+Qed.
+
+(* the 1:1 version is conflict free only when imports sharing an identifier also share the path … *)
+Theorem resolved_imports_one_to_one_conflict_free imports :
+  (forall i j id, In i imports -> In j imports -> eligible i = true -> eligible j = true ->
+                  In id (imported_identifier i) -> In id (imported_identifier j) -> imp_path i = imp_path j) ->
+  keyed_conflict_free (resolved_imports_one_to_one imports).
+Proof.
+  intros H k v w Hv Hw. unfold resolved_imports_one_to_one in Hv, Hw.
+  apply in_flat_map in Hv. destruct Hv as (i & Hi & Hv).
+  apply in_flat_map in Hw. destruct Hw as (j & Hj & Hw).
+  destruct (eligible i) eqn:Ei; [|destruct Hv]. destruct (eligible j) eqn:Ej; [|destruct Hw].
+  apply in_map_iff in Hv. destruct Hv as (id1 & E1 & Hv). injection E1 as Ek1 Ev1. subst id1 v.
+  apply in_map_iff in Hw. destruct Hw as (id2 & E2 & Hw). injection E2 as Ek2 Ew2. subst id2 w.
+  eapply H; eassumption.
+Qed.
+
+(* … and two imports under one identifier (`import data.a.foo` + `import data.b.foo`: the parser accepts them,
+   only the compiler would not) make it raise "object keys must be unique" *)
+Theorem resolved_imports_one_to_one_shadowing_refuted :
+  exists imports,
+    (forall i, In i imports -> imp_alias i = None) /\
+    keyed_conflict_free (resolved_imports imports) /\
+    ~ keyed_conflict_free (resolved_imports_one_to_one imports).
+Proof.
+  set (foo := [102; 111; 111]%N : str).
+  set (i1 := {| imp_path := [s_data; [97%N]; foo]; imp_alias := None |}).
+  set (i2 := {| imp_path := [s_data; [98%N]; foo]; imp_alias := None |}).
+  exists [i1; i2]. split; [|split].
+  - intros i [<-|[<-|[]]]; reflexivity.
+  - apply resolved_imports_conflict_free.
+  - intros H. specialize (H (JStr foo) (imp_path i1) (imp_path i2)).
+    assert (E : imp_path i1 = imp_path i2) by (apply H; vm_compute; auto).
+    discriminate.
+Qed.
+
+Lemma first_arity_le1 name rules : length (first_arity name rules) <= 1.
+Proof. unfold first_arity. destruct (filter (fun r => str_eqb (rs_name r) name) rules); simpl; auto. Qed.
+
+(* function_decls: several functions (and rules) of one name with different arities give one declaration *)
+Theorem function_decls_conflict_free rules : keyed_conflict_free (function_decls rules).
+Proof.
+  intros k v w Hv Hw. unfold function_decls in Hv, Hw.
+  apply in_flat_map in Hv. destruct Hv as (r1 & _ & Hv).
+  apply in_flat_map in Hw. destruct Hw as (r2 & _ & Hw).
+  destruct (rs_args r1); [|destruct Hv]. destruct (rs_args r2); [|destruct Hw].
+  apply in_map_iff in Hv. destruct Hv as (v' & E1 & Hv). injection E1 as Ek1 Ev1. subst v'.
+  apply in_map_iff in Hw. destruct Hw as (w' & E2 & Hw). injection E2 as Ek2 Ew2. subst w'.
+  rewrite Ek1 in Hv. rewrite Ek2 in Hw.
+  pose proof (first_arity_le1 k rules) as Hl.
+  destruct (first_arity k rules) as [|x [|y l]]; simpl in *.
+  - destruct Hv.
+  - destruct Hv as [<-|[]]. destruct Hw as [<-|[]]. reflexivity.
+  - lia.
+Qed.
